@@ -384,7 +384,13 @@ class Model:
             if f.is_static and any(isinstance(n, ast.Compare) and any(isinstance(o, ast.Is) for o in n.ops) for n in f.walk()) \
                     and any(isinstance(n, ast.For) for n in f.walk()):
                 idfind.append(f.name)
-        R.IDFIND = sorted(set(idfind) | {n for n in ('_find_setting_reference', '_find_settings_references') if n in A.methods})
+        pinned = [n for n in ('_find_setting_reference', '_find_settings_references') if n in A.methods]
+        if len(pinned) == 2:
+            R.IDFIND = sorted(pinned)      # (renamed helpers were already mapped back to these names by the pre-pass)
+        else:
+            idfind = [n for n in idfind if len(A.methods[n].params) == 2 and
+                      all(all(isinstance(o, ast.Is) for o in c.ops) for c in A.methods[n].walk() if isinstance(c, ast.Compare))]
+            R.IDFIND = sorted(set(idfind) | set(pinned))
         # the single-result helper (returns an int) vs. the pair-list helper
         R.IDFIND1 = None
         R.IDFINDN = None
